@@ -65,7 +65,7 @@ def SrcWF (fs : FS) (S : Path) : Prop :=
 /-- the resolved source directory of a directory-sourced dependency -/
 def srcDir (d : DepInfo) : Path :=
   match d.source with
-  | .subdir _ _ abs => resolve abs
+  | .subdir _ _ abs => pathResolve abs
   | _ => []
 
 def isLocal (d : DepInfo) : Bool :=
@@ -74,7 +74,7 @@ def isLocal (d : DepInfo) : Bool :=
   | _ => false
 
 /-- the directory `copy_to(path, include_version=iv)` fills: `path/name[-version]` -/
-def tgtDir (d : DepInfo) (path : Str) (iv : Bool) : Path := resolve (posixJoin path (dirName d iv))
+def tgtDir (d : DepInfo) (path : Str) (iv : Bool) : Path := pathResolve (posixJoin path (dirName d iv))
 
 /-- the files (relative to the source directory) a dependency wants copied: everything when `all_files`,
     else exactly the listed ones -/
@@ -96,10 +96,10 @@ namespace HtmlVerif
 def CopyReady (d : DepInfo) (path : Str) (iv : Bool) (fs : FS) : Prop :=
   match d.source with
   | .subdir _ _ abs =>
-    abs ≠ [] ∧ Apart (resolve abs) (tgtDir d path iv) ∧ fs.fileOnPath (tgtDir d path iv) = false ∧
-    (if d.allFiles then SrcWF fs (resolve abs)
+    abs ≠ [] ∧ Apart (pathResolve abs) (tgtDir d path iv) ∧ fs.fileOnPath (tgtDir d path iv) = false ∧
+    (if d.allFiles then SrcWF fs (pathResolve abs)
      else ∃ fl, listedFiles d = .ok fl ∧
-       ∀ f ∈ fl, f.head? ≠ some '/' ∧ (fs.read (resolve abs ++ segs (utf8 f))).isSome = true)
+       ∀ f ∈ fl, f.head? ≠ some '/' ∧ (fs.read (pathResolve abs ++ segs (utf8 f))).isSome = true)
   | _ => True
 
 /-- the effect of that copy: the target directory holds exactly the wanted files, byte-identical to their
